@@ -105,7 +105,7 @@ def run(ctx):
     res = Result("C06", level="fault_enumeration")
     # (1) exploration: E1 histories with endings of every kind mixed in
     results, cover, shapes = common.e1_check(
-        ctx, res, PROFILE, n_quick=96, n_thorough=480, steps=140, steps_thorough=280,
+        ctx, res, PROFILE, n_quick=96, n_thorough=1920, steps=140, steps_thorough=280,
         relevant=lambda t: False, nontrivial_rule="")
     ends = {s: n for s, n in shapes.items() if s.startswith("end:") or s in ("quit", "kill:ok", "kill:ok:self")}
     res.extra["endings_in_random_histories"] = ends
